@@ -147,7 +147,7 @@ extern ssize_t mpt_queue_push(MPT_STRUCT(encode_queue) *qu, size_t len, const vo
 				qu->_state.done = done;
 				vec.iov_len = high;
 				push2 = qu->_enc(&qu->_state, &vec, &from);
-				qu->_state.done += done;
+				qu->_state.done += low;
 			}
 			if (push2 > 0) {
 				push += push2;
